@@ -64,8 +64,8 @@ objs=[h('-')*v('+')*dS + h*v*ds]'''),
 
 def run(v, tier, seed, g):
     facet_cases = [c for c in corpus.PINNED if any(t in c["code"] for t in ("*ds", "*dS", "*dP"))]
-    rnd = [c for c in corpus.random_cases(seed, 120 if tier == "quick" else 1500) if any(t in c["code"] for t in ("*ds", "*dS", "*dP"))]
-    cases = facet_cases + EXTRA + rnd[: (25 if tier == "quick" else 600)]
+    rnd = [c for c in corpus.random_cases(seed, 300 if tier == "quick" else 2500) if any(t in c["code"] for t in ("*ds", "*dS", "*dP"))]
+    cases = facet_cases + EXTRA + rnd[: (70 if tier == "quick" else 900)]
     res = valprops.run_oracle(cases, seed, entity_mode="all")
     st = valprops.account(v, res, "c02", types={"exterior_facet", "interior_facet", "vertex"},
                           what="facet/vertex kernel differs from the integral over the indicated local entity")
